@@ -137,6 +137,164 @@ theorem sparse_eq_dense (bufs : List Bytes) : (writeAll bufs).content = bufs.fla
 
 example : (writeAll [[0,0,0,0,0,0,0,0, 0,0,0,0,0,0,0,0, 0,0,5], [0,0,0]]).content.length = 22 := by rw [(sparse_eq_dense _).1]; rfl
 
+/-! ### length view (Model/Sparse.lean `LSt`) and zero runs of any length -/
+
+theorem abs_seekWrite (s : St) (d : Bytes) : (seekWrite s d).abs = seekWriteL s.abs d.length := by
+  simp [seekWrite, seekWriteL, St.abs, Nat.add_assoc]
+
+theorem abs_segment (s : St) (seg : Bytes) : (segment s seg).abs = segmentL s.abs seg := by
+  unfold segment segmentL
+  simp only
+  split
+  · rfl
+  · rw [abs_seekWrite]; simp [St.abs]
+
+theorem abs_body (s : St) (b : Bytes) : (body s b).abs = bodyL s.abs b := by
+  fun_induction body s b with
+  | case1 s => unfold bodyL; simp
+  | case2 s b h ih => rw [ih, abs_segment]; conv => rhs; unfold bodyL; simp only [h, dite_false]
+
+theorem abs_tail (s : St) (rest : Bytes) : (tail s rest).abs = tailL s.abs rest := by
+  unfold tail tailL
+  split
+  · rfl
+  · simp only
+    split
+    · rfl
+    · rw [abs_seekWrite]; simp [St.abs]
+
+theorem abs_writeBuf (s : St) (buf : Bytes) : (writeBuf s buf).abs = writeBufL s.abs buf := by
+  unfold writeBuf writeBufL
+  simp only
+  rw [abs_tail, abs_body]
+
+theorem abs_finish (s : St) : (finish s).abs = finishL s.abs := by
+  unfold finish finishL
+  by_cases h : s.skips > 0
+  · have : s.content.length + (s.skips - 1) + 1 = s.content.length + s.skips := by omega
+    simp [h, St.abs]; omega
+  · simp [h, St.abs]
+
+theorem abs_foldl (bufs : List Bytes) : ∀ s : St, (bufs.foldl writeBuf s).abs = bufs.foldl writeBufL s.abs := by
+  induction bufs with
+  | nil => intro s; rfl
+  | cons b bs ih => intro s; simp only [List.foldl_cons]; rw [ih, abs_writeBuf]
+
+/-- the length view computes exactly the size, pending skip and seek / write calls of the byte-level writer -/
+theorem abs_writeAll (bufs : List Bytes) : (writeAll bufs).abs = finishL (bufs.foldl writeBufL {}) := by
+  unfold writeAll
+  rw [abs_finish, abs_foldl]
+  rfl
+
+theorem zeroWords_replicate (k r : Nat) (hr : r < 8) : zeroWords (List.replicate (8 * k + r) 0) = k := by
+  induction k with
+  | zero =>
+    unfold zeroWords
+    simp; omega
+  | succ k ih =>
+    unfold zeroWords
+    have hd : List.drop 8 (List.replicate (8 * (k + 1) + r) (0 : UInt8)) = List.replicate (8 * k + r) 0 := by
+      rw [List.drop_replicate]; congr 1; omega
+    have hc : (List.replicate (8 * (k + 1) + r) (0 : UInt8)).length ≥ 8 ∧ ((List.replicate (8 * (k + 1) + r) (0 : UInt8)).take 8).all (· == 0) = true := by
+      refine ⟨by simp; omega, ?_⟩
+      simp [List.take_replicate]
+    rw [dif_pos hc, hd, ih]; omega
+
+theorem segmentL_zeros (l : LSt) (j : Nat) : segmentL l (List.replicate (8 * j) 0) = { l with skips := l.skips + 8 * j } := by
+  unfold segmentL
+  have := zeroWords_replicate j 0 (by omega)
+  simp only [Nat.add_zero] at this
+  simp [this]
+
+theorem bodyL_zeros_aux (n : Nat) : ∀ l : LSt, 8 ∣ n → bodyL l (List.replicate n 0) = { l with skips := l.skips + n } := by
+  induction n using Nat.strongRecOn with
+  | _ n ih =>
+    intro l hdiv
+    unfold bodyL
+    by_cases hn : n = 0
+    · subst hn; simp
+    · have hne : List.replicate n (0 : UInt8) ≠ [] := by
+        intro h; have := congrArg List.length h; simp at this; omega
+      rw [dif_neg hne, List.take_replicate, List.drop_replicate]
+      obtain ⟨j, hj⟩ : ∃ j, min segmentSize n = 8 * j := by
+        obtain ⟨q, hq⟩ := hdiv
+        simp only [segmentSize]
+        by_cases hc : 32768 ≤ n
+        · exact ⟨4096, by omega⟩
+        · exact ⟨q, by omega⟩
+      obtain ⟨m, hm, hlt, hmd⟩ : ∃ m, n - segmentSize = m ∧ m < n ∧ 8 ∣ m := by
+        refine ⟨n - segmentSize, rfl, ?_, ?_⟩
+        · simp only [segmentSize]; omega
+        · obtain ⟨q, hq⟩ := hdiv
+          simp only [segmentSize]
+          exact ⟨q - 4096, by omega⟩
+      have hsum : 8 * j + m = n := by
+        rw [← hj, ← hm]; simp only [segmentSize]; omega
+      rw [hj, hm, segmentL_zeros, ih m hlt _ hmd]
+      cases l
+      simp only [LSt.mk.injEq, true_and, and_true]
+      omega
+
+theorem bodyL_zeros (k : Nat) (l : LSt) : bodyL l (List.replicate (8 * k) 0) = { l with skips := l.skips + 8 * k } :=
+  bodyL_zeros_aux (8 * k) l ⟨k, rfl⟩
+
+theorem tailL_zeros (l : LSt) (r : Nat) : tailL l (List.replicate r 0) = { l with skips := l.skips + r } := by
+  unfold tailL
+  by_cases h : r = 0
+  · subst h; simp
+  · have hne : List.replicate r (0 : UInt8) ≠ [] := by
+      intro h'; have := congrArg List.length h'; simp at this; omega
+    have htw : (List.replicate r (0 : UInt8)).takeWhile (· == 0) = List.replicate r 0 := by
+      simp [List.takeWhile_replicate]
+    simp [hne, htw]
+
+/-- **a buffer of zeros issues nothing**: whatever its size and whatever is pending, the writer only adds its length to the pending skip -/
+theorem writeBufL_zeros (l : LSt) (n : Nat) : writeBufL l (List.replicate n 0) = { l with skips := l.skips + n } := by
+  unfold writeBufL
+  simp only [List.length_replicate]
+  have ht : (List.replicate n (0 : UInt8)).take (8 * (n / 8)) = List.replicate (8 * (n / 8)) 0 := by
+    rw [List.take_replicate]; congr 1; omega
+  have hd : (List.replicate n (0 : UInt8)).drop (8 * (n / 8)) = List.replicate (n - 8 * (n / 8)) 0 := by
+    rw [List.drop_replicate]
+  rw [ht, hd, bodyL_zeros, tailL_zeros]
+  simp only
+  congr 1
+  omega
+
+/-- the run-length shortcut of the driver is the fold over the individual zero buffers -/
+theorem zerosL_eq (n count : Nat) : ∀ l : LSt, zerosL l n count = (List.replicate count (List.replicate n 0)).foldl writeBufL l := by
+  induction count with
+  | zero => intro l; simp [zerosL]
+  | succ c ih =>
+    intro l
+    rw [List.replicate_succ, List.foldl_cons, writeBufL_zeros, ← ih]
+    simp only [zerosL]
+    congr 1
+    rw [Nat.mul_succ]; omega
+
+theorem writeItemL_eq (l : LSt) (it : Item) : writeItemL l it = it.expand.foldl writeBufL l := by
+  cases it with
+  | data b => rfl
+  | zeros n count => exact zerosL_eq n count l
+
+theorem foldl_items (items : List Item) : ∀ l : LSt, items.foldl writeItemL l = (items.flatMap Item.expand).foldl writeBufL l := by
+  induction items with
+  | nil => intro l; rfl
+  | cons it its ih => intro l; simp only [List.foldl_cons, List.flatMap_cons, List.foldl_append]; rw [ih, writeItemL_eq]
+
+/-- **sparse_big**: what the driver computes for a run-length coded sequence (zero runs of any length: 4 GiB, 8 GiB, ...) is the size and
+the seek / write calls of the byte-level writer on the expanded buffers, and that size is the number of bytes handed in: no zero is lost
+however long the run - the pending skip never wraps. -/
+theorem sparse_big (items : List Item) :
+    writeAllL items = (writeAll (items.flatMap Item.expand)).abs ∧
+    (writeAllL items).size = ((items.flatMap Item.expand).flatten).length := by
+  have h1 : writeAllL items = (writeAll (items.flatMap Item.expand)).abs := by
+    rw [abs_writeAll]; unfold writeAllL; rw [foldl_items]
+  refine ⟨h1, ?_⟩
+  rw [h1]
+  simp only [St.abs]
+  rw [(sparse_eq_dense _).1]
+
 /-! ### file-operation protocol -/
 
 open Cli
@@ -158,7 +316,7 @@ theorem file_never_loses (inv : Inv) (env : Env) (src dst : String) (hd : dstOf 
   · simp only [c1, if_true]
     rcases k with _ | _ | _ | k <;> simp [exec, execOp, h0]
   · simp only [c1]
-    by_cases c2 : (env.dstExists dst && !inv.force) = true
+    by_cases c2 : (env.dstExists dst && !overwriteOk inv) = true
     · simp only [c2, if_true]
       rcases k with _ | _ | _ | k <;> simp [exec, execOp, h0]
     · simp only [c2]
@@ -178,7 +336,7 @@ theorem src_removed_only_after_close (inv : Inv) (env : Env) (src dst : String) 
   by_cases c1 : (inv.mode == Mode.test || inv.toStdout) = true
   · simp [c1] at hu
   · simp only [c1] at hu ⊢
-    by_cases c2 : (env.dstExists dst && !inv.force) = true
+    by_cases c2 : (env.dstExists dst && !overwriteOk inv) = true
     · simp [c2] at hu
     · simp only [c2] at hu ⊢
       by_cases c4 : env.codecOk src = true
@@ -207,9 +365,10 @@ theorem rm_disabled_when_unsafe (inv : Inv) (env : Env) (src : String) (h : inv.
     rcases h with h | h <;> simp [h]
   simp [this]
 
-/-- **no_clobber**: a destination that exists is neither opened for writing nor removed unless -f was given; the file counts as failed -/
+/-- **no_clobber**: a destination that exists is neither opened for writing nor removed unless -f was given or the user answered "y" to the
+question, which is only asked at display level >= 2 (`overwriteOk`); the file counts as failed -/
 theorem no_clobber (inv : Inv) (env : Env) (src dst : String) (hd : dstOf inv src = some dst)
-    (hout : (inv.mode == Mode.test || inv.toStdout) = false) (hex : env.dstExists dst = true) (hf : inv.force = false) :
+    (hout : (inv.mode == Mode.test || inv.toStdout) = false) (hex : env.dstExists dst = true) (hf : overwriteOk inv = false) :
     (fileOps inv env src).2 = false ∧ Op.openW dst ∉ (fileOps inv env src).1 ∧ Op.unlink dst ∉ (fileOps inv env src).1 := by
   unfold fileOps
   simp [hd, hout, hex, hf]
@@ -217,7 +376,7 @@ theorem no_clobber (inv : Inv) (env : Env) (src dst : String) (hd : dstOf inv sr
 /-- **failure_leaves_no_artefact**: when the codec rejects the input, the partial destination is removed, the source stays, the
 file counts as failed -/
 theorem failure_leaves_no_artefact (inv : Inv) (env : Env) (src dst : String) (hd : dstOf inv src = some dst) (hne : dst ≠ src)
-    (hout : (inv.mode == Mode.test || inv.toStdout) = false) (hgo : (env.dstExists dst && !inv.force) = false)
+    (hout : (inv.mode == Mode.test || inv.toStdout) = false) (hgo : (env.dstExists dst && !overwriteOk inv) = false)
     (hbad : env.codecOk src = false) (fs0 : FS) (h0 : fs0 src = .old) :
     (fileOps inv env src).2 = false ∧ exec fs0 (fileOps inv env src).1 dst = .absent ∧ exec fs0 (fileOps inv env src).1 src = .old := by
   have hne' : src ≠ dst := fun h => hne h.symm
@@ -238,7 +397,7 @@ theorem interrupt_safe (inv : Inv) (env : Env) (src dst : String) (hd : dstOf in
   · simp only [c1, if_true] at ht ⊢
     rcases k with _ | _ | _ | k <;> simp [interruptOps] at ht
   · simp only [c1] at ht ⊢
-    by_cases c2 : (env.dstExists dst && !inv.force) = true
+    by_cases c2 : (env.dstExists dst && !overwriteOk inv) = true
     · simp only [c2, if_true] at ht ⊢
       rcases k with _ | _ | _ | k <;> simp [interruptOps] at ht
     · simp only [c2] at ht ⊢
@@ -283,7 +442,7 @@ theorem fileOps_touches_all (inv : Inv) (env : Env) (src : String) :
     | none => simp
     | some dst =>
       simp only
-      by_cases c2 : (env.dstExists dst && !inv.force) = true
+      by_cases c2 : (env.dstExists dst && !overwriteOk inv) = true
       · simp [c2, touches]
       · simp only [c2]
         by_cases c3 : env.dstExists dst = true <;> by_cases c4 : env.codecOk src = true <;> by_cases c5 : rmActive inv = true <;>
@@ -377,16 +536,103 @@ theorem program_never_loses (inv : Inv) (env : Env) : ∀ (files : List String) 
         exact ⟨fun x hx => a x (List.mem_cons_of_mem _ hx), fun x hx hne => b x (List.mem_cons_of_mem _ hx) hne⟩
       exact ih (exec fs0 (o1.take k)) hnd'.2 hsep' hkeep (k - o1.length) f hfr hex d hd
 
+/-! ### several inputs into one destination (-o FILE) -/
+
+theorem srcOps_touches (env : Env) : ∀ (files : List String), ∀ op ∈ (srcOps env files).1, touches op = [] := by
+  intro files
+  induction files with
+  | nil => intro op hop; simp [srcOps] at hop
+  | cons f fs ih =>
+    intro op hop
+    simp only [srcOps] at hop
+    split at hop
+    · simp only [List.cons_append, List.nil_append, List.mem_cons] at hop
+      rcases hop with rfl | rfl | h
+      · rfl
+      · rfl
+      · exact ih op h
+    · exact ih op hop
+
+theorem srcOps_no_unlink (env : Env) (files : List String) (p : String) : Op.unlink p ∉ (srcOps env files).1 := by
+  intro h
+  have := srcOps_touches env files _ h
+  simp [touches] at this
+
+theorem sharedOps_touches (inv : Inv) (env : Env) (out : String) : ∀ op ∈ (sharedOps inv env out).1, ∀ p ∈ touches op, p = out := by
+  intro op hop p hp
+  unfold sharedOps at hop
+  split at hop
+  · simp at hop
+  · simp only [List.mem_append, List.mem_cons, List.not_mem_nil, or_false] at hop
+    rcases hop with ((h | h) | h) | h
+    · split at h
+      · simp at h; subst h; simpa [touches] using hp
+      · simp at h
+    · subst h; simpa [touches] using hp
+    · rw [srcOps_touches env inv.files op h] at hp; simp at hp
+    · subst h
+      cases hb : (srcOps env inv.files).2 <;> simp [hb, touches] at hp
+      exact hp
+
+theorem program_shared_touches (inv : Inv) (env : Env) (out : String) (h : sharedOut inv = some out) :
+    ∀ op ∈ program inv env, ∀ p ∈ touches op, p = out := by
+  intro op hop p hp
+  unfold program at hop
+  simp only [h, List.mem_append, List.mem_cons, List.not_mem_nil, or_false] at hop
+  rcases hop with h1 | h1
+  · exact sharedOps_touches inv env out op h1 p hp
+  · subst h1; simp [touches] at hp
+
+/-- **shared_sources_intact**: when several inputs go into the one destination named with -o, then at EVERY prefix of the run (every kill
+point), whatever --rm, -f, the display level (-qq / -q / default / -v) and the answer at the prompt, every source other than that destination
+is exactly as it was -/
+theorem shared_sources_intact (inv : Inv) (env : Env) (out : String) (fs0 : FS) (k : Nat) (f : String) (hne : f ≠ out) (h0 : fs0 f = .old) :
+    sharedOut inv = some out → exec fs0 ((program inv env).take k) f = .old := by
+  intro h
+  rw [exec_untouched _ _ f]
+  · exact h0
+  · intro op hop hp
+    exact hne (program_shared_touches inv env out h op (List.mem_of_mem_take hop) f hp)
+
+/-- **rm_disabled_shared**: in that mode no source is ever unlinked: --rm is switched off, at every display level -/
+theorem rm_disabled_shared (inv : Inv) (env : Env) (out : String) (h : sharedOut inv = some out) (f : String) (hne : f ≠ out) :
+    Op.unlink f ∉ program inv env := by
+  intro hu
+  exact hne (program_shared_touches inv env out h _ hu f (by simp [touches]))
+
+/-- and `rmActive` says so: removal of sources is armed only when each source has a destination of its own -/
+theorem rmActive_not_shared (inv : Inv) (h : rmActive inv = true) : sharedOut inv = none := by
+  unfold rmActive at h
+  simp only [Bool.and_eq_true, Option.isNone_iff_eq_none] at h
+  exact h.2
+
+/-- **shared_refused_quietly**: without -f and without a "y" (never asked for at -q / -qq) nothing at all is touched and the run fails -/
+theorem shared_refused (inv : Inv) (env : Env) (out : String) (h : sharedOut inv = some out) (hno : overwriteOk inv = false) :
+    program inv env = [.exit 1] := by
+  unfold program
+  simp [h, sharedOps, hno]
+
 /-- the same for the complete program (the final `exit` changes no file) -/
 theorem never_lose_data (inv : Inv) (env : Env) (fs0 : FS) (hnd : inv.files.Nodup) (hsep : Separate inv inv.files)
     (hold : ∀ f ∈ inv.files, fs0 f = .old) (k : Nat) (f : String) (hf : f ∈ inv.files) (hex : env.srcExists f = true)
     (d : String) (hd : dstOf inv f = some d) :
     Recoverable (exec fs0 ((program inv env).take k)) f d := by
-  unfold program
-  split
-  · -- refused before anything is touched
-    rcases k with _ | k <;> simp [exec, execOp, Recoverable, hold f hf]
-  · simp only
+  cases hso : sharedOut inv with
+  | some out =>
+    -- several inputs into one destination: nothing but that destination is ever touched
+    have hout : inv.outName = some out := by
+      unfold sharedOut at hso
+      cases ho : inv.outName with
+      | none => simp [ho] at hso
+      | some o => simp only [ho] at hso; split at hso <;> simp_all
+    have hdo : d = out := by
+      unfold dstOf at hd; simp only [hout] at hd; exact (Option.some.inj hd).symm
+    have hne : f ≠ out := fun h => (hsep f hf d hd).1 f hf (by rw [hdo, h])
+    left
+    exact shared_sources_intact inv env out fs0 k f hne (hold f hf) hso
+  | none =>
+    unfold program
+    simp only [hso]
     rw [List.take_append, exec_append]
     have := program_never_loses inv env inv.files fs0 hnd hsep hold k f hf hex d hd
     unfold Recoverable at this ⊢
@@ -403,5 +649,9 @@ example : Separate { mode := .compress, files := ["a", "b"] } ["a", "b"] := by
 
 example : (program { mode := .compress, files := ["a"], rm := true } { dstExists := fun _ => false, srcExists := fun _ => true, codecOk := fun _ => true }) =
     [.openR "a", .openW "a.zst", .sigOn "a.zst", .sigOff, .close "a.zst" true, .close "a" false, .unlink "a", .exit 0] := by decide
+
+example : (program { mode := .compress, files := ["a", "b"], rm := true, force := true, level := 0, outName := some "o" }
+    { dstExists := fun p => p == "o", srcExists := fun _ => true, codecOk := fun _ => true }) =
+    [.unlink "o", .openW "o", .openR "a", .close "a" false, .openR "b", .close "b" false, .close "o" true, .exit 0] := by decide
 
 end ZstdVerif.Props.C19
